@@ -23,7 +23,9 @@ RULE = (
     "1..9. Odd run indices additionally inject ECOS failures (SolverError, or a return without variable values as for an "
     "infeasible/unbounded status) at seeded (call-since-reset, solver-iteration) keys. Oracles: every call returns; after each reset the remaining segment equals, bitwise, a newly "
     "constructed instance fed the same segment (same fault keys); the solver seam is entered on calls 0,k,2k,.. "
-    "since reset and never on the others; reuse calls return the weights of a k=1 reference instance fed only "
+    "since reset and never on the others, and on those calls it is handed the data of the current matrix "
+    "(every problem parameter a fresh instance passes for that matrix, warm start excepted); the alphabet "
+    "sometimes contains a power-of-two multiple of another matrix; reuse calls return the weights of a k=1 reference instance fed only "
     "the recompute calls; norm <= max_norm. Non-trivial: history contains a reset after >=1 call, or a reuse "
     "call; distinct = (k, max_norm, niter, history symbols, fault keys)."
 )
@@ -58,6 +60,10 @@ def _history_from_index(h):
 def generate(rng, tier, index):
     m = rng.choice([2, 2, 3, 3, 4, 5])
     alphabet = [_matrix(rng, m, rng.choice([m, m + 1, m + 3, 7])) for _ in range(3)]
+    if rng.random() < 0.3:
+        # loss scaling: one matrix is an exact power-of-two multiple of another
+        c = rng.choice([0.25, 0.5, 2.0, 4.0, 8.0])
+        alphabet[1] = [[c * v for v in row] for row in alphabet[0]]
     dtype = "float32" if rng.random() < 0.5 else "float64"
     if tier == "thorough" and index < N_EXH * len(CONFIGS):
         k, mn = CONFIGS[index // N_EXH]
@@ -90,11 +96,13 @@ class SolveSeam:
         self.fired = 0
         self.fired_no_value = 0
         self.reached = False
+        self.first_solve_params = None
 
     def begin_call(self, call_since_reset):
         self.call_since_reset = call_since_reset
         self.iteration = 0
         self.entries_this_call = 0
+        self.first_solve_params = None
 
     @contextlib.contextmanager
     def armed(self):
@@ -105,6 +113,14 @@ class SolveSeam:
 
         def solve(prob, *a, **k):
             seam.reached = True
+            if seam.iteration == 0:
+                # what the solver is given at the first solve of this call: every cvxpy Parameter of the problem
+                try:
+                    seam.first_solve_params = sorted(
+                        (tuple(int(d) for d in q.shape), np.asarray(q.value, dtype=np.float64).tobytes()) for q in prob.parameters() if q.value is not None
+                    )
+                except Exception:  # noqa: BLE001
+                    seam.first_solve_params = None
             key = (seam.call_since_reset, seam.iteration)
             seam.iteration += 1
             seam.entries_this_call += 1
@@ -151,9 +167,9 @@ def _run_segment(A, mats, seam, start_call=0):
             slack = None
             if seen and seen[-1].shape == (J.shape[0],):
                 slack = 64.0 * (J.shape[0] + J.shape[1]) * eps * float(np.linalg.norm(seen[-1] @ J.detach().to(torch.float64).abs().numpy()))
-            res.append((out.detach().numpy().tobytes(), None, seam.entries_this_call, out.detach().to(torch.float64).numpy().copy(), slack))
+            res.append((out.detach().numpy().tobytes(), None, seam.entries_this_call, out.detach().to(torch.float64).numpy().copy(), slack, seam.first_solve_params))
         except Exception as e:  # noqa: BLE001
-            res.append((None, f"{type(e).__name__}: {str(e)[:200]}", seam.entries_this_call, None, None))
+            res.append((None, f"{type(e).__name__}: {str(e)[:200]}", seam.entries_this_call, None, None, None))
     if handle is not None:
         handle.remove()
     return res
@@ -190,7 +206,7 @@ def execute(scn):
         # ---- oracle: every call returns; solver schedule; norm bound
         for si, seg in enumerate(segments):
             for ci, j in enumerate(seg):
-                b, exc, entries, vec, slack = outs[si][ci]
+                b, exc, entries, vec, slack, _params = outs[si][ci]
                 events.append([si, ci, j, exc, entries, None if b is None else digest(b)])
                 if exc is not None:
                     viols.append({"clause": "call_raised", "step": [si, ci], "details": {"exc": exc, "call_since_reset": ci, "every": k, "reuse_call": ci % k != 0}, "key": {"reuse_call": ci % k != 0, "exc": exc.split(":")[0]}})
@@ -222,6 +238,34 @@ def execute(scn):
                     if r[ci][3] is not None and outs[si][ci][3] is not None:
                         d = float(np.abs(r[ci][3] - outs[si][ci][3]).max())
                     viols.append({"clause": "reset_differs_from_fresh_instance", "step": [si, ci], "details": {"segment": si, "call": ci, "max_abs_diff": d, "fresh_exc": r[ci][1]}, "key": {}})
+                    break
+        # ---- oracle: a recompute call hands the solver the data of the CURRENT matrix. Differential at the
+        # solver seam: every problem parameter a fresh instance passes for this matrix -- except the warm
+        # start, the only vector of length n_tasks -- must be among the parameters this instance passes.
+        m_tasks = int(p["n_tasks"])
+        checked = 0
+        for si, seg in enumerate(segments):
+            for ci, j in enumerate(seg):
+                if ci % k != 0 or ci == 0 or checked >= 3:
+                    continue
+                mine = outs[si][ci][5]
+                if not mine:
+                    continue
+                fresh = _make(p)
+                saved_keys = seam.fault_keys
+                seam.fault_keys = {}
+                try:
+                    rf = _run_segment(fresh, [mats[j]], seam)
+                finally:
+                    seam.fault_keys = saved_keys
+                theirs = rf[0][5]
+                if not theirs:
+                    continue
+                checked += 1
+                stats["reach.solver_input_compared_with_fresh_instance"] = stats.get("reach.solver_input_compared_with_fresh_instance", 0) + 1
+                missing = [q for q in theirs if q[0] != (m_tasks,) and q not in mine]
+                if missing:
+                    viols.append({"clause": "recompute_call_solves_stale_problem_data", "step": [si, ci], "details": {"call_since_reset": ci, "every": k, "parameter_shapes_that_differ_from_a_fresh_instance_on_the_same_matrix": [list(q[0]) for q in missing]}, "key": {}})
                     break
         # ---- oracle: reuse calls return the last computed weights (k=1 reference fed the recompute calls)
         if k > 1:
